@@ -2147,6 +2147,67 @@ def m_fetch_add(I, st, t, args, site, depth):
     return None
 
 
+def m_to_be_bytes(I, st, t, args, site, depth):
+    ty = (t.callee.self_ty or "").split("::")[-1]
+    if ty in INT_BITS and args:
+        return [(st, ("be_bytes", tform(args[0]), INT_BITS[ty] // 8))]
+    return None
+
+
+def m_checked(I, st, t, args, site, depth):
+    """checked_add / checked_sub on unsigned integers: Some(a (+|-) b) when it fits, None otherwise"""
+    name = t.callee.name
+    oty = (t.callee.self_ty or "").split("::")[-1] if t.callee.self_ty else None
+    if oty not in INT_BITS or oty.startswith("i") or len(args) != 2:
+        return None
+    a, b = args
+    if name == "checked_sub":
+        op, fits = "Ge", lin_add(a, b, -1)
+    else:
+        return None
+    if fits is None:
+        return None
+    d = I.decide_cmp(st, op, a, b, oty)
+    out = []
+    if d is not False:
+        s1 = st if d is True else st.fork()
+        if d is True or I.assume_cmp(s1, op, a, b, True, oty):
+            if d is not True:
+                s1.add_pc(("cmp", op, tform(a), tform(b), oty), True, site)
+            out.append((s1, Some(fits)))
+    if d is not True:
+        s2 = st if d is False else st.fork()
+        if d is False or I.assume_cmp(s2, op, a, b, False, oty):
+            if d is not False:
+                s2.add_pc(("cmp", op, tform(a), tform(b), oty), False, site)
+            out.append((s2, NoneV()))
+    return out or None
+
+
+def m_fmt_format(I, st, t, args, site, depth):
+    """format!("{}", x) is x.to_string() (one default Display placeholder, no literal text: template b"\xc0\x00")"""
+    a = tform(args[0]) if args else None
+    if not (isinstance(a, tuple) and a and a[0] == "call" and a[1].endswith("Arguments::new") and len(a[3]) == 2):
+        return None
+    tmpl, arr = a[3]
+    if not (isinstance(tmpl, tuple) and tmpl and tmpl[0] == "const" and tmpl[1] in ('b"\\xc0\\x00"', "b\"\\xc0\\x00\"")):
+        return None
+    while isinstance(arr, tuple) and arr and arr[0] in ("ref", "deref"):
+        arr = arr[1]
+    if not (isinstance(arr, tuple) and arr[:2] == ("agg", "array") and len(arr) == 3):
+        return None
+    d = arr[2]
+    if not (isinstance(d, tuple) and d and d[0] == "call" and d[1].endswith("Argument::new_display") and len(d[3]) == 1):
+        return None
+    x = d[3][0]
+    while isinstance(x, tuple) and x and x[0] in ("ref", "deref"):
+        x = x[1]
+    name = "std::string::ToString::to_string"
+    res = ("call", name, site, (x,))
+    st.events.append(Event("call", name, [x], site, t.span, tuple(I.ctx), res, t.callee, extra={"via": "format!"}))
+    return [(st, res)]
+
+
 def m_unwrap_or(I, st, t, args, site, depth):
     v = args[0]
     if isinstance(v, Struct) and v.variant in ("Ok", "Some"):
@@ -2286,6 +2347,9 @@ DEFAULT_MODELS = {
 }
 DEFAULT_MODELS = {k: v for k, v in DEFAULT_MODELS.items() if v is not None}
 SUFFIX_MODELS = [
+    ("fmt::format", m_fmt_format),
+    ("::to_be_bytes", m_to_be_bytes),
+    ("::checked_sub", m_checked),
     ("::wrapping_add", m_wrapping),
     ("::wrapping_sub", m_wrapping),
     ("::wrapping_neg", m_wrapping),
